@@ -53,17 +53,49 @@ def run(tier, seed):
         fails += rep["failures"]
         evals += rep["evaluations"]
         samples += rep["samples"][:1]
+    # ---- node level: the same pool sequences (and racing dials) against a REAL running node, per endpoint
+    node = []
+    for endpoint, keys, allowed, limit in [("gossip", '{"a", "x", "y"}', '{"a"}', 1), ("consensus", '{"v", "u", "w"}', '{"v", "u"}', 0)]:
+        with open(os.path.join(common.SPECS, "network", cfgname), "w") as f:
+            f.write(f'CONSTANTS Keys = {keys} Allowed = {allowed} Limit = {limit} MaxOps = 5\nINIT Init\nNEXT Next\nINVARIANTS OnePerKeyAndQuota Done\nCHECK_DEADLOCK FALSE\n')
+        try:
+            r3 = common.tlc("network", "MC_Pool", cfg=cfgname, workers=4, timeout=900, xmx="8g")
+        finally:
+            os.remove(os.path.join(common.SPECS, "network", cfgname))
+        if not r3.ok:
+            raise common.ToolError("Pool.tla invariant fails on the specification:\n" + r3.out[-1500:])
+        ncases = r3.printed("CASE")
+        cp = os.path.join(d, f"node_cases_{endpoint}.ndjson")
+        common.write_ndjson(cp, ncases)
+        rp = os.path.join(d, f"node_report_{endpoint}.json")
+        rc, so, se = common.run_bin("node_admit", [endpoint, cp, rp, seed, 1500 if tier == "quick" else 100000], timeout=1800)
+        if rc != 0 and not os.path.exists(rp):
+            raise common.ToolError("node_admit failed: " + se[-800:])
+        rep = common.load_report(rp)
+        for f in rep["failures"]:
+            f["case"] = {"mode": "node", "endpoint": endpoint, "case": f["case"]}
+        if any(f["key"] == "node_not_up" for f in rep["failures"]):
+            raise common.ToolError("node_admit: the node under test never came up")
+        fails += rep["failures"]
+        evals += rep["evaluations"]
+        node.append({"endpoint": endpoint, "sequences_replayed": rep["distinct"], "dials": rep["evaluations"], "concurrent_admitted": rep["counters"].get("concurrent_admitted", 0)})
+        if rep["distinct"] == 0 and not rep["failures"]:
+            raise common.ToolError("node_admit replayed nothing")
     cov = {"states": len(hs) + r2.distinct, "transitions": evals, "traces_validated_against_impl": evals, "samples": samples[:3],
            "evaluations": evals, "distinct_nontrivial": len(hs) + len(pool),
            "rule": "handshake: endpoint kind x claimed key {expected peer, attacker, honest non-member} x session {this, another} x chain x signer; pool: all "
                    f"sequences of {maxops} insert/remove over one configured and two non-configured keys with quota 1; + 8-task concurrent stress per round",
+           "node_level": node,
+           "node_level_rule": "Pool.tla sequences of 5 connect/hang-up operations (sampled to 1500 per endpoint in the quick tier) replayed on a real running node "
+                              "(listener, preface, noise, handshake, pool, RPC service) over loopback TCP: gossip endpoint (1 static inbound, 2 non-configured, quota 1) and "
+                              "validator endpoint (2 members, 1 non-member, no quota); admission observed as 'the node starts its RPC service' vs 'closes'; then 6 racing dial tasks",
            "exhaustive": True, "auth_theorem": "checked by TLC: 3 sessions, 2 honest keys + attacker + non-member, 2 chains"}
     common.write_evidence(PROP, tier, seed, "model_checking", cov,
                           ["signatures unforgeable; the session id is unique per noise session (hash of the handshake transcript) and shared by its two ends only",
                            "validator admission = handshake + pool of committee keys with zero extra quota, as consensus/mod.rs wires it",
                            "thread interleavings of the concurrent pool stress are not controlled"], time.time() - t0, len(fails))
     common.handle_failures(PROP, fails, "case_failure")
-    log(f"[C12] ok: {len(hs)} handshake classes x {rounds} rounds, {len(pool)} pool sequences x {rounds}")
+    log(f"[C12] ok: {len(hs)} handshake classes x {rounds} rounds, {len(pool)} pool sequences x {rounds}; node level: {node}")
     return 0
 
 
@@ -73,6 +105,16 @@ def replay(path, seed):
     common.cargo_build()
     d = common.outdir(PROP)
     mode = c.get("mode", "handshake")
+    if mode == "node":
+        cp = os.path.join(d, "replay_case.ndjson")
+        inner = c["case"]
+        common.write_ndjson(cp, [{"ops": inner["ops"]}] if "ops" in inner else [])
+        rp = os.path.join(d, "replay_report.json")
+        common.run_bin("node_admit", [c["endpoint"], cp, rp, inner.get("seed", seed), 10])
+        rep = common.load_report(rp)
+        common.handle_failures(PROP, rep["failures"], "replay_failure")
+        log("replay: no violation")
+        return 0
     if mode == "pool_stress":
         mode = "pool"
         cases = []
